@@ -46,7 +46,7 @@ def showRes : Res → String
   | .err c => s!"err:{c}"
 
 def isReadKind : Option OpKind → Bool
-  | some (.read ..) | some (.recv ..) | some (.readat ..) | some (.readf ..) => true
+  | some (.read ..) | some (.recv ..) | some (.readat ..) | some (.readf ..) | some (.rmulti ..) => true
   | _ => false
 
 def D.showDone (d : D) (id : Id) (r : Res) : String :=
@@ -55,16 +55,30 @@ def D.showDone (d : D) (id : Id) (r : Res) : String :=
     | .err _ => "-"
   s!"{showRes r}:{data}"
 
+/-- `Proactor::pop_multishot` until empty; each item is reported as `k+ok:n:data` -/
+def D.popItems (d : D) (id : Id) : Nat → List String → D × List String
+  | 0, acc => (d, acc)
+  | fuel + 1, acc =>
+    match d.keys.popMulti id with
+    | (_, none) => (d, acc)
+    | (ks, some r) =>
+      let os := d.getOs
+      let data := (os.items id).headD []
+      let d1 := (d.setKeys ks).setOs { os with items := upd os.items id ((os.items id).drop 1) }
+      D.popItems d1 id fuel (s!"{id}+{showRes r}:{hexOf data}" :: acc)
+
 /-- the harness pops every outstanding non-lazy key after each driver call -/
 def D.scanKeys (d : D) : D × String :=
   let rec go (d : D) (ids : List Id) (keep : List Id) (acc : List String) : D × List String :=
     match ids with
     | [] => ({ d with live := keep.reverse }, acc.reverse)
     | id :: rest =>
+      -- multishot items first (`pop_multishot`), oldest first
+      let (d, acc) := D.popItems d id 64 acc
       match d.keys.pop id with
       | (ks, some r) =>
         let d1 := d.setKeys ks
-        go d1 rest keep (s!"{id}={d1.showDone id r}:w{d1.keys.woken id}" :: acc)
+        go d1 rest keep (s!"{id}={d1.showDone id r}:w{d1.keys.woken id + d1.keys.nudged id}" :: acc)
       | (_, none) => go d rest (id :: keep) acc
   let (d', items) := go d d.live [] []
   (d', if items.isEmpty then "-" else ",".intercalate items)
@@ -81,6 +95,7 @@ def parseKind : List String → Option OpKind
   | ["job", "err", n] => do some (.job (.err (← n.toNat?)))
   | ["readat", c, off, cap] => do some (.readat (← c.toNat?) (← off.toNat?) (← cap.toNat?))
   | ["splice", a, b, n] => do some (.splice (← a.toNat?) (← b.toNat?) (← n.toNat?))
+  | ["rmulti", c] => do some (.rmulti (← c.toNat?))
   | _ => none
 
 def showFault : Fault → String
@@ -159,7 +174,7 @@ def D.scanFuts (d : D) : D × String :=
     | id :: rest =>
       if d.keys.woken id > d.seen id then
         match d.futPoll id with
-        | (d1, .ready r) => go d1 rest keep (s!"{id}={d1.showDone id r}:w{d1.keys.woken id}" :: acc)
+        | (d1, .ready r) => go d1 rest keep (s!"{id}={d1.showDone id r}:w{d1.keys.woken id + d1.keys.nudged id}" :: acc)
         | (d1, _) => go d1 rest (id :: keep) acc
       else go d rest (id :: keep) acc
   let (d', items) := go d d.live [] []
@@ -278,13 +293,13 @@ def stepLine (d : D) (w : List String) : D × String :=
       if d.fut then
         if !(d.lazy.contains id) then (d, "none") else
         match d.futPoll id with
-        | (d1, .ready r) => ({ d1 with lazy := d1.lazy.erase id }, s!"{id}={d1.showDone id r}:w{d1.keys.woken id}")
+        | (d1, .ready r) => ({ d1 with lazy := d1.lazy.erase id }, s!"{id}={d1.showDone id r}:w{d1.keys.woken id + d1.keys.nudged id}")
         | (d1, _) => (d1, "none")
       else
       match d.keys.pop id with
       | (ks, some r) =>
         let d1 := d.setKeys ks
-        ({ d1 with lazy := d1.lazy.erase id }, s!"{id}={d1.showDone id r}:w{d1.keys.woken id}")
+        ({ d1 with lazy := d1.lazy.erase id }, s!"{id}={d1.showDone id r}:w{d1.keys.woken id + d1.keys.nudged id}")
       | (_, none) => (d, "none")
     | none => (d, "bad-op")
   | ["ctoken", k] => match k.toNat? with
